@@ -37,6 +37,19 @@ def build_static(case):
         w.tip = w.make_block(w.tip, extra=[t2], ntx=0)
         grow_chain(w, 2, rng, rich=False)
         w.features.add('big_spend')
+    wide = case.get('wide_payout')
+    if wide:
+        # one flush whose history touches more than `wide` distinct script hashes: a payout to that many different scripts
+        from exv.chainsim import Tx, MINUS1
+        u = dict(w.utxos(w.tip))
+        o = max(u, key=lambda k: u[k][1])
+        per = max(1, u[o][1] // (wide + 1))
+        w.salt += 1
+        t = Tx([(o[0], o[1], b'', MINUS1)], [(per, b'\x76\xa9\x14' + i.to_bytes(20, 'big') + b'\x88\xac') for i in range(1, wide + 1)],
+               locktime=w.salt)
+        w.tip = w.make_block(w.tip, extra=[t], ntx=0)
+        grow_chain(w, 2, rng, rich=False)
+        w.features.add('wide_payout')
     tips = {'A': w.tip}
     fk = case.get('fork')
     if fk:
